@@ -67,7 +67,7 @@ def cmd_import(sid, wt, prop):
     return 0
 
 
-def cmd_run(sid, tier='quick', props=None, extra='', in_repo=False):
+def cmd_run(sid, tier='quick', props=None, extra='', in_repo=False, record=True):
     """Run the property's check against the seeded change.  Default: in a scratch worktree of /repo's HEAD under
     /tmp with the patch applied (VERIF_REPO points the check at it; evidence and replays go to a scratch
     directory), removed afterwards.  --in-repo: git -C /repo apply, run, git -C /repo checkout -- . """
@@ -132,6 +132,8 @@ def cmd_run(sid, tier='quick', props=None, extra='', in_repo=False):
             sh('git -C /repo worktree remove --force %s' % scratch)
             shutil.rmtree(scratch, ignore_errors=True)
         shutil.rmtree(outdir, ignore_errors=True)
+    if not record:
+        return results
     meta['checks'] = [c for c in meta.get('checks', []) if (c['property'], c['tier']) not in [(r['property'], r['tier']) for r in results]] + results
     # every run is also appended to 'history' (a miss that led to a stronger check stays on record)
     vc = sh('git -C %s rev-parse --short HEAD' % ROOT)[1].strip() + ('+uncommitted' if sh('git -C %s status --porcelain -- sim' % ROOT)[1].strip() else '')
@@ -183,9 +185,10 @@ def cmd_sweep(seeds, out):
             if str(seed) in res.get(sid, {}):
                 continue
             os.environ['VERIF_SEED'] = str(seed)
-            cmd_run(sid)
-            m = json.load(open(p))
-            c = [c for c in m['checks'] if c['property'] == m['property']][-1]
+            rs = cmd_run(sid, record=False)
+            if not isinstance(rs, list) or not rs:
+                continue
+            c = rs[0]
             res.setdefault(sid, {})[str(seed)] = {'caught': c['caught'], 'exit': c['exit'], 'search': c.get('caught_by_seeded_search'),
                                                   'regress': c.get('caught_by_regression_plans'), 'wall_s': c['wall_s'], 'first': c['first']}
             json.dump(res, open(out, 'w'), indent=1, ensure_ascii=False)
